@@ -254,6 +254,132 @@ func c03Scenario(c *choice.Ctx, rep *report.R, queries []c03Query) {
 	rep.State(fmt.Sprintf("%s|%s|%d|%s", seam.name, rule, wantRcode, obs))
 }
 
+func c09Answer(q *refdns.Msg, n int) *refdns.Msg { return c09AnswerT(q, n, 240, 0) }
+
+// n records with txt text octets each, plus (tail > 0) one more record with tail text octets
+func c09AnswerT(q *refdns.Msg, n, txt, tail int) *refdns.Msg {
+	m := env.Answer(q, 1, 60)
+	if tail > 0 {
+		// owned by the root: its encoding cannot be shortened by compression, so the response ends exactly where the composition says
+		// and it is the last record of the last non-empty section before the OPT record, i.e. the last one packed
+		defer func() { m.Ns = append(m.Ns, refdns.TXT(refdns.Name{}, 77, tail, 'T')) }()
+	}
+	for i := 0; i < n; i++ {
+		r := refdns.TXT(q.Q[0].Name, uint32(100+i%50), txt, byte('a'+i%26))
+		if i%3 == 2 {
+			m.Ns = append(m.Ns, r)
+		} else {
+			m.An = append(m.An, r)
+		}
+	}
+	return m
+}
+
+// c03Compose finds the answer composition (n records of txt text octets plus one root-owned record of tail text octets, see
+// c09AnswerT) for which the complete response, as this listener encodes it, is exactly want octets. The encoding is measured,
+// not assumed: two probe queries (same name length, 2 and 3 records, big advertised size) through the same listener give the
+// fixed part and the size of one record. setN switches the upstream's answer size for the probes.
+func c03Compose(v *vRouter, seam c03Seam, queryHasOPT bool, txt, want int, setN func(int)) (n, tail, fixed, rec int, errs string) {
+	probe := func(name string, k int) int {
+		setN(k)
+		pq := refdns.Query(0x0910, refdns.N(name, "example", "test"), 16, 1)
+		pq.Ar = []refdns.RR{refdns.OPT(65535, 0, nil)}
+		cl := seam.open(v)
+		cl.send(pq)
+		wait()
+		hsleep(100 * time.Millisecond)
+		wait()
+		_, raws := cl.responses()
+		cl.close()
+		wait()
+		if len(raws) != 1 {
+			return -1
+		}
+		return len(raws[0])
+	}
+	s2, s3 := probe("pr2", 2), probe("pr3", 3)
+	rec = s3 - s2
+	fixed = s2 - 2*rec
+	if !queryHasOPT {
+		fixed -= 11 // the probes carried an OPT record (11 octets), this query does not
+	}
+	if s2 < 0 || s3 < 0 || rec < txt+10 || fixed < 12 {
+		return 0, 0, fixed, rec, fmt.Sprintf("probe responses of %d and %d octets", s2, s3)
+	}
+	// full = fixed + n*rec + (1 + 10 + 1 + tail): n compressed records, then one TXT record owned by the root with tail text octets
+	n = (want - fixed - 13) / rec
+	tail = want - fixed - n*rec - 12
+	if tail > 254 {
+		n, tail = n+1, tail-rec
+	}
+	if n < 0 || tail < 1 || tail > 254 {
+		return 0, 0, fixed, rec, fmt.Sprintf("cannot compose %d octets from fixed=%d rec=%d", want, fixed, rec)
+	}
+	setN(n)
+	return n, tail, fixed, rec, ""
+}
+
+// c03Huge: responses around the largest UDP datagram. The client advertises 65535 octets; the upstream's answer is composed so
+// that the complete response is exactly `size` octets. Exactly one response must arrive on every listener.
+func c03Huge(c *choice.Ctx, rep *report.R) {
+	own := env.InstallOwn(0xA5, vRace)
+	defer env.UninstallOwn()
+	seam := c03Seams[c.Choose(len(c03Seams), "seam")]
+	size := 65500 + c.Choose(36, "response-size")
+	desc := fmt.Sprintf("seam=%s query with OPT(65535), upstream answer composed for a complete response of %d octets", seam.name, size)
+	fail := func(sig, msg string) {
+		rep.Violate("C03:"+seam.name+":"+sig, msg+"\n  "+desc, map[string]any{"Choices": c.Choices(), "Huge": true})
+	}
+	v, err := vNewRouter(c03Config("forward"), "u1")
+	if err != nil {
+		fail("router-start", err.Error())
+		return
+	}
+	defer v.Close()
+	n, tail := 0, 0
+	v.ups["u1"].Auto = func(q *upQuery) *upResult {
+		return &upResult{wire: c09AnswerT(q.Msg, n, 240, tail).Encode(false)}
+	}
+	var cerr string
+	n, tail, _, _, cerr = c03Compose(v, seam, true, 240, size, func(k int) { n = k })
+	if cerr != "" {
+		fail("compose", cerr)
+		return
+	}
+	q := refdns.Query(0x0903, refdns.N("big", "example", "test"), 16, 1)
+	q.Ar = []refdns.RR{refdns.OPT(65535, 0, nil)}
+	cl := seam.open(v)
+	cl.send(q)
+	wait()
+	hsleep(6*time.Second + 50*time.Millisecond)
+	wait()
+	rs, raw := cl.responses()
+	obs := fmt.Sprintf("%d responses", len(rs))
+	switch {
+	case len(rs) == 0 && seam.name == "udp" && size > 65507:
+		fail("no-response:datagram-over-65507", fmt.Sprintf("no response within 6.05 s: the %d octet response does not fit a UDP datagram (sendmsg fails with EMSGSIZE) and nothing else is sent", size))
+	case len(rs) == 0:
+		fail("no-response", "no response within 6.05 s")
+	case len(rs) > 1:
+		fail("multiple-responses", fmt.Sprintf("%d responses", len(rs)))
+	case rs[0] == nil:
+		fail("undecodable-response", fmt.Sprintf("%d octets", len(raw[0])))
+	default:
+		for _, b := range c03CheckResponse(q, rs[0], 0) {
+			fail("bad-response:"+strings.SplitN(b, " ", 2)[0], b)
+		}
+		obs = fmt.Sprintf("%d octets tc=%v", len(raw[0]), rs[0].Has(refdns.BitTC))
+	}
+	cl.close()
+	v.Close()
+	wait()
+	for _, x := range own.Audit() {
+		fail("ownership", x)
+	}
+	rep.Eval(desc + "=>" + obs)
+	rep.State(fmt.Sprintf("huge|%s|%s", seam.name, obs))
+}
+
 // client is the seam-independent view of one client transport.
 type c03Client interface {
 	send(m *refdns.Msg)
@@ -408,9 +534,22 @@ func TestVerifC03(t *testing.T) {
 		seams = append(seams, s.name)
 	}
 	rep.Rule = fmt.Sprintf("E3: real router (run()) with scripted upstream in a synctest bubble; full product listener seam %v x %d queries (all QR x opcode{0,1,2,15} x RD x QDCOUNT{0,1,2}; flag/class/type/case/OPT/extra-record variants) x rule outcome %v x upstream outcome %v (only when forwarded); "+
-		"observed at t=0, 6s, 6.05s, 20s on the exact virtual clock; oracle: exactly one response, by 6s+50ms, id/opcode/RD copied, QR=RA=1, <=1 question equal to the first question, rcode per reference decision table; ownership audit",
+		"observed at t=0, 6s, 6.05s, 20s on the exact virtual clock; oracle: exactly one response, by 6s+50ms, id/opcode/RD copied, QR=RA=1, <=1 question equal to the first question, rcode per reference decision table; ownership audit; "+
+		"plus, on every seam, a query advertising 65535 octets whose upstream answer is composed (listener encoding measured by two probes) so that the complete response is exactly 65500..65535 octets, one by one: exactly one well-formed response within 6.05 s",
 		seams, len(queries), c03Rules, c03Ups)
-	st := runExplore(t, rep, -1, func(c *choice.Ctx) { c03Scenario(c, rep, queries) })
-	rep.Count("executions", st.Executions)
+	huge := false
+	if rp := report.ReplayFile(); rp != nil {
+		var x struct{ Huge bool }
+		rp.Decode(&x)
+		huge = x.Huge
+	}
+	if !huge {
+		st := runExplore(t, rep, -1, func(c *choice.Ctx) { c03Scenario(c, rep, queries) })
+		rep.Count("executions", st.Executions)
+	}
+	if huge || report.ReplayFile() == nil {
+		st := runExplore(t, rep, -1, func(c *choice.Ctx) { c03Huge(c, rep) })
+		rep.Count("executions_huge", st.Executions)
+	}
 	rep.Sample(map[string]any{"seam": "tcp", "rule": "forward", "query": "qr=0 op=0 rd=1 qd=1", "upstream": "silence", "expect": "one SERVFAIL at exactly 6s"})
 }
